@@ -10,3 +10,4 @@ for p in "$@"; do
   echo "$out" | grep -E "VIOLATION|MACHINERY|KNOWN|^  scenario|quick:|thorough:" | cut -c1-260 | head -8
 done
 git checkout -- src
+cd /verif/engine && cargo build --release --offline >/dev/null 2>&1
